@@ -94,8 +94,8 @@ class Ctx:
             self.harness = out
         return out, ""
 
-    def run_harness(self, args, inp, timeout=600, harness=None, env=None):
-        r = subprocess.run([harness or self.harness] + args, input=inp, capture_output=True, text=True,
+    def run_harness(self, args, inp, timeout=600, harness=None, env=None, prefix=None):
+        r = subprocess.run(list(prefix or []) + [harness or self.harness] + args, input=inp, capture_output=True, text=True,
                            timeout=timeout, env=env or GOENV)
         return r
 
